@@ -714,10 +714,11 @@ def routine_level(ctx, harness, stats):
     cur = ctx.driver(["c05", "current"], text)
     impl = run_harness(ctx, harness, lines)
     assert len(model) == len(lines) == len(cur)
-    # per meta group: after the first failed call the reader state is implementation-defined (the repairs of
-    # D2 and D3 differ there); those lines are run for safety only
+    # The reader objects keep being used after failed calls and every such line is compared (the models carry the
+    # state a failed call leaves behind).  Only after the allocator refused a request the model granted (`err ALLOC`
+    # from the real code, accepted below) the two sides are out of step until the object is made anew.
     poisoned = set()
-    xpoisoned = False      # xattr reader: after a failed call its meta readers are in a state the model does not track
+    xpoisoned = False
     nontrivial = set()
     hist = {}
     XOPS = ("xdesc", "xseek", "xkey", "xval", "xall")
@@ -756,16 +757,11 @@ def routine_level(ctx, harness, stats):
             continue
         if got is None:
             continue
-        if owner[i] in poisoned and op in ("seek", "read"):
+        if (owner[i] in poisoned and op in ("seek", "read")) or (xpoisoned and op in XOPS):
             stats["post_failure_lines"] += 1
             continue
-        if xpoisoned and op in XOPS:
-            stats["post_failure_lines"] += 1
-            continue
-        if op in ("seek", "read") and got.startswith("err"):
-            poisoned.add(owner[i])
-        if op in XOPS and got.startswith("err"):
-            xpoisoned = True
+        if op in ("seek", "read") + XOPS and got.startswith("err"):
+            stats["failed_calls_then_used_on"] = stats.get("failed_calls_then_used_on", 0) + 1
         if got.startswith("err") or "err" in got.split()[-2:]:
             nontrivial.add(l if len(l) < 300 else op + ":" + vlib.sha(l)[:12] + ":" + str(i))
         if op in ("dread", "inode", "dirent") and got.startswith("err ") and got != "err ALLOC":
@@ -774,6 +770,10 @@ def routine_level(ctx, harness, stats):
             continue
         if got == "err ALLOC":
             stats["alloc_refused"] = stats.get("alloc_refused", 0) + 1        # the allocator may refuse any request
+            if op in XOPS:
+                xpoisoned = True
+            if op in ("seek", "read"):
+                poisoned.add(owner[i])
             continue
         opkey = OP_KEYS.get(op)
         if got == c_status and not c_unsafe and opkey and ctx.known_finding(opkey) is not None:
@@ -1331,7 +1331,8 @@ def run(ctx):
                 "sub-directories and colliding inode numbers. tool level: forged valid images + gensquashfs images, one to three on-disk "
                 "fields set to boundary/neighbour/random values or 1-4 byte-level edits, through 10 tool invocations + the API driver",
         "routine_lines": stats["lines"], "routine_ops": stats.get("routine_ops"), "routine_crashes": stats["crashes"],
-        "routine_disagreements": stats["disagreements"], "routine_post_failure_lines_not_compared": stats["post_failure_lines"],
+        "routine_disagreements": stats["disagreements"], "routine_lines_not_compared_after_refused_allocation": stats["post_failure_lines"],
+        "routine_failed_calls_with_the_object_used_on_and_compared": stats.get("failed_calls_then_used_on", 0),
         "known_routine_crashes": stats["known_crashes"], "known_routine_silent": stats["known_silent"],
         "walk_graphs": stats["walk_images"], "walk_tar": {k: v for k, v in stats.items() if k.startswith("walk_tar_")},
         "walk_model_fill_dir": {k: v for k, v in stats.items() if k.startswith("walk_model_")},
